@@ -15,7 +15,7 @@ Definition detached (r : rstate) (h : nat) : Prop :=
   match nth_error (r_handles r) h with Some c => cand (r_store r) c | None => True end.
 
 Definition hval_safe (r : rstate) (v : hvalue) : Prop :=
-  match v with HElem h => detached r h | HDt _ _ => False | _ => True end.
+  match v with HElem h => detached r h | _ => True end.
 
 (* the side condition of the partial theorems *)
 Definition op_safe (r : rstate) (o : op) : Prop :=
@@ -25,7 +25,6 @@ Definition op_safe (r : rstate) (o : op) : Prop :=
       hval_safe r v /\ match v with HElem _ => pos_shaped (last names []) = false | _ => True end
   | OSetIndex _ _ _ v => hval_safe r v
   | OSetListIndex _ _ v => hval_safe r v
-  | OSetValueDt _ _ _ => False
   | OSetParent c _ => detached r c
   | _ => True
   end.
@@ -69,7 +68,7 @@ Proof.
   - destruct (handle r h) as [i|ex] eqn:Eh; [|exact HK]. cbn [resolve_value]. rewrite mbind_run.
     pose proof (get_proxy_spec t le U (HB r) i n s (conj HK (K_B _ _ _ _ HK (handle_ok _ _ _ Eh)))) as H.
     step_with H; [|exact H]. destruct r0 as [o pn]. cbn [ret]. split; [apply H|]. cbn. auto.
-  - destruct Hs.
+  - cbn. auto.
 Qed.
 
 Lemma op_m_ok r o : RInv r -> op_safe r o -> outcome_ok r (op_m t e le false r o (r_store r)).
@@ -134,7 +133,10 @@ Proof.
       step_with H; [|exact H]. destruct H as (H4 & _ & H6). destruct r0 as [o' pn']. rewrite mbind_run.
       pose proof (set_child_spec' t e le Unone (HB r) o' pn' (VProxy o pn) i s1 (conj H4 (conj H6 Logic.I))) as H.
       step_with H; [apply H|exact H].
-    + destruct H2.
+    + pose proof (read_chain_spec t le Unone (HB r) ix names s0 (conj H1 (K_B _ _ _ _ H1 (handle_ok _ _ _ Ex)))) as H.
+      step_with H; [|exact H]. destruct H as (H4 & _ & H6). destruct r0 as [o pn]. rewrite mbind_run.
+      pose proof (set_child_spec' t e le Unone (HB r) o pn (VDt dt txt) i s1 (conj H4 (conj H6 Logic.I))) as H.
+      step_with H; [apply H|exact H].
   - (* OSetListIndex *)
     apply RH. intros ix Ex Hx. rewrite mbind_run.
     pose proof (value_spec r v Unone Hs (fun _ _ _ _ F => F) s
@@ -202,7 +204,9 @@ Proof.
   - (* OSetValue *)
     apply RH. intros ix Ex Hx. rewrite mbind_run.
     pose proof (set_value_spec t e le Unone (HB r) ix text s (conj HK Hx)) as H. step_with H; [apply H|exact H].
-  - destruct Hs.
+  - (* OSetValueDt *)
+    apply RH. intros ix Ex Hx. rewrite mbind_run.
+    pose proof (set_value_dt_spec t le 3 Unone (HB r) ix dt text s (conj HK Hx)) as H. step_with H; exact H.
   - (* OSetDatatype *)
     apply RH. intros ix Ex Hx. rewrite mbind_run.
     pose proof (set_datatype_spec t Unone (HB r) 3 ix dt s HK) as H. step_with H; exact H.
